@@ -348,3 +348,33 @@ _upd('C08',
      'operands that are arbitrary host gates; result widths proved for Dadda, Karatsuba, 2^k-1 and the squarers. All modes are modelled '
      'one-to-one and compared gate for gate (uuid pinned); the search checks values and widths on the real generators.',
      'Result widths of DEFAULT and Wallace are checked on the real generators, not proved (partial).')
+_upd('C02',
+     'Invariant by induction over operation histories (no bound): WFS (operands/outputs exist, users index = inverse operand multiset, input '
+     'list = INPUT gates each once, acyclic by a rank, block labels exist) holds for the empty circuit and is preserved by add/emplace gate, '
+     'add_inputs, mark/set/order inputs and outputs, replace_inputs, make/delete block, remove_gate, remove_block, rename_gate, copy, '
+     'make_block_from_slice, into_bench, connect_circuit in BOTH directions with all wrappers, and replace_subcircuit (renames with pairwise '
+     'distinct targets, slice removal, re-insertion of the replacement, restored outputs and users, whole-graph cycle check — the proof needed '
+     'the fix 4cd9e3a: the old check only walked the cone of the outputs and a cyclic circuit could be returned); after any such history both '
+     'topological iterations yield every gate once in dependency order. Histories of the real calls (incl. replace_subcircuit with identical, '
+     'renamed, re-expressed and structurally entangled replacements) are compared field by field after every call; every state the code '
+     'produces goes through the Lean checker checkWFU.',
+     '"copy equals original / shares no state": correspondence-only (Lean values cannot alias). into_bench is a separate theorem (C14), not a '
+     'history step (its precondition on arities depends on the state).')
+_upd('C19',
+     'Theorems: replace_inputs yields exactly the cofactor over the remaining inputs in order and keeps the invariant; remove_gate succeeds '
+     'only for an existing gate without users and removes it from gate map, outputs and blocks, with the exact error class otherwise; '
+     'rename_gate yields the renamed circuit (every reference points at the new label), keeps the invariant and every truth table; '
+     'replace_subcircuit leaves the circuit well formed whenever it returns (any replacement), and with a replacement that agrees with the slice '
+     'on every valuation of the circuit (equivalence under the given correspondence, only on value combinations that occur) every valuation of '
+     'the original extends to one of the result with the same output values and the same inputs position by position — the same truth table. '
+     'All four calls are compared with the code on every run (many cut-bounded slices per circuit, truth-table and checkWFU oracles).',
+     'Side condition of the replace_subcircuit function theorem: no slice output is a circuit INPUT. Which documented error is raised when the '
+     'call does not return is established by correspondence only.')
+_upd('C20',
+     'Theorems: Kahn in both directions yields every gate once in dependency order and never raises on well-formed circuits; DFS/BFS yield '
+     'exactly the reachable gates, each once, and hand exactly the unreached gates to the unvisited hook (storage or topological order); DFS '
+     'hooks are balanced, exit in post-order (both directions), enter before exit; the cycle check is silent exactly on circuits without a '
+     'cycle reachable from its start gates (the outputs by default, as the property states; replace_subcircuit passes all gates); the '
+     'traversal loop terminates and never raises on well-formed circuits. Event logs of the real traversals (all hooks) and the cycle check '
+     'are compared with the model on DAGs and cyclic netlists on every run.',
+     'The tie between the model\'s event log and the hooks the Python generator calls is by correspondence.')
